@@ -575,7 +575,7 @@ func TestVerifC05(t *testing.T) {
 
 	perKind, maxSteps, maxAdds, sample := 4, 80, 8, 30
 	if tier == "thorough" {
-		perKind, maxSteps, maxAdds, sample = 30, 160, 12, 30
+		perKind, maxSteps, maxAdds, sample = 70, 160, 12, 30
 	}
 	if v, err := strconv.Atoi(os.Getenv("VERIF_C05_CASES")); err == nil && v > 0 {
 		perKind = v
